@@ -5,6 +5,7 @@ import (
 	"go/ast"
 	"go/token"
 	"go/types"
+	"reflect"
 	"strings"
 
 	"golang.org/x/tools/go/ssa"
@@ -787,17 +788,34 @@ func memberReadOfSection(v ssa.Value, section string, depth int, seen map[ssa.Va
 		}
 		return false
 	}
+	// a member the configuration validator requires (`validate:"required"`) is set in every accepted
+	// configuration: testing it again changes nothing (License.Name); only optional members count
+	optionalMember := func(t types.Type, idx int) string {
+		if p, ok := t.Underlying().(*types.Pointer); ok {
+			t = p.Elem()
+		}
+		st, ok := t.Underlying().(*types.Struct)
+		if !ok || idx >= st.NumFields() {
+			return ""
+		}
+		for _, rule := range strings.Split(reflect.StructTag(st.Tag(idx)).Get("validate"), ",") {
+			if rule == "required" {
+				return ""
+			}
+		}
+		return st.Field(idx).Name()
+	}
 	switch x := v.(type) {
 	case *ssa.FieldAddr:
 		if isSection(x.X) {
-			if fv := structFieldVar(x.X.Type(), x.Field); fv != nil {
-				return fv.Name()
+			if m := optionalMember(x.X.Type(), x.Field); m != "" {
+				return m
 			}
 		}
 	case *ssa.Field:
 		if isSection(x.X) {
-			if fv := structFieldVar(x.X.Type(), x.Field); fv != nil {
-				return fv.Name()
+			if m := optionalMember(x.X.Type(), x.Field); m != "" {
+				return m
 			}
 		}
 	}
